@@ -61,7 +61,8 @@ CHECKS['C01'] = dict(
     engine='progsim', category='exploration', design='DESIGN.md 3 C01',
     text='Hypothesis-generated operation programs are built into real classes with the real decorators, recorded, '
          'stored and fetched through every cassette type (in-memory, file, S3 with and without prefix, async wrapper) '
-         'and replayed; round-trip oracle on every call site, the operation result, Playback outputs and a body '
+         'and replayed (programs include fallback aliases naming live aliases of other inputs and intercepted calls cut '
+         'short by an interrupt-style exception that the operation swallows); round-trip oracle on every call site, the operation result, Playback outputs and a body '
          'journal (no wrapped body may run in replay).',
     note='Expected side is what the live run actually did (harness journal), not a re-implementation. Generator '
          'preconditions: inputs normalised to be a function of (alias, captured args); faithful value domain of the '
@@ -105,7 +106,8 @@ CHECKS['C04'] = dict(
 CHECKS['C05'] = dict(
     engine='progsim', category='fault_enumeration', design='DESIGN.md 3 C05',
     text='Same fault enumeration as C04 (capture faults, discards, forced sampling, ordinary exceptions and '
-         'BaseException terminations at every step incl. inside intercepted bodies, failing save/extractor, sampling '
+         'BaseException terminations at every step incl. inside intercepted bodies - also swallowed by the operation -, '
+         'calls of another decorated operation of the same recorder, failing save/extractor, sampling '
          'rates) observed at a spy cassette: exactly one finalisation per created recording, abort and unchanged store '
          'whenever a capture failed or a discard happened, every stored non-incomplete recording replays without a '
          'missing-key error and without executing a wrapped body, and a fault-free follow-up operation on the same '
@@ -184,7 +186,8 @@ CHECKS['C12'] = dict(
     engine='detsched', category='exploration', design='DESIGN.md 3 C12',
     text='The real AsyncRecordOnlyTapeCassette runs under a harness-owned deterministic thread scheduler (cooperative '
          'Lock/Event/Thread, switch points at every line or bytecode of the cassette module and at every storage call): '
-         'Hypothesis generates workloads (producers, writes, a failing wrapped operation) and schedules (PCT priority '
+         'Hypothesis generates workloads (producers, writes, a failing wrapped operation, optionally split over two '
+         'asynchronous cassettes used one after the other in the process) and schedules (PCT priority '
          'schedules, seeded random walks, timer firings); a stateless DFS enumerates all schedules within a preemption '
          'bound for the smallest workloads. Oracle: content at the moment close() returns == synchronous twin, '
          'per-recording operation order exactly once, failing op removes only itself, nothing after close, callers '
@@ -202,7 +205,9 @@ CHECKS['C08'] = dict(
          'in-process/dedicated '
          'x recycle rate x keep-results, run through the REAL Equalizer with real forked workers; one correctly '
          'attributed verdict per id in input order, replay and kept results belong to the labelled id, and in-process vs '
-         'dedicated differential for scripts without process faults.',
+         'dedicated differential for scripts without process faults. Second part: a real TapeRecorder as the player '
+         'over real recordings whose replay is unchanged / sends something else / fails inside the framework before or '
+         'after an output call, in-process and dedicated with recycle rates 1-6.',
     note='Nothing in the repository is patched: behaviours are executed by the user callbacks; the late-answer schedule '
          'is made deterministic by wrapping os.kill in the harness process. Each process fault costs about 1 s (the '
          'Equalizer polls at 1 s), hence scenario counts in the hundreds.',
@@ -210,7 +215,8 @@ CHECKS['C08'] = dict(
 CHECKS['C13'] = dict(
     engine='procfault', category='exploration', design='DESIGN.md 3 C13',
     text='Hypothesis-generated scenarios with hangs and worker deaths at first/middle/last/consecutive/recycle-boundary '
-         'positions x recycle rate x timeout x consumption mode (full, closed early, consumer exception, never started) '
+         'positions x recycle rate x timeout x consumption mode (full, closed early, consumer exception, never started, two overlapping runs of '
+         'one equalizer) '
          'against the REAL Equalizer: bounded response per faulty id and for the whole run, the run continues with a '
          'fresh worker, tasks per worker pid <= recycle rate (counted from a pipe written by the player), no non-zombie '
          'child left within 2 s of completion or abandonment.',
